@@ -256,8 +256,8 @@ def addTrivialLeg (a : ArrS) (axis : Int) (qconj : Int) : ArrS :=
   let leg := Leg.fromQflat a.mods [czero a.mods.length] qconj
   { a with legs := insertAt pos (.plain leg) a.legs, qdata := a.qdata.map (insertAt pos 0) }
 
-/-- `squeeze(axes)`; `axes = none`: all legs of length 1. `none` result = error or scalar result -/
-def squeeze (a : ArrS) (axes : Option (List Int)) : Option ArrS :=
+/-- `squeeze(axes)`; `axes = none`: all legs of length 1. `some none` = scalar result (all legs squeezed) -/
+def squeeze (a : ArrS) (axes : Option (List Int)) : Option (Option ArrS) :=
   let axes? : Option (List Nat) := match axes with
     | none => some ((List.range a.rank).filter (fun k => a.shape.getD k 0 == 1))
     | some ax => ax.mapM a.legIndex
@@ -266,12 +266,12 @@ def squeeze (a : ArrS) (axes : Option (List Int)) : Option ArrS :=
   | some axes =>
     if axes.any (fun k => a.shape.getD k 0 != 1) then none else
     let keep := (List.range a.rank).filter (fun k => !axes.contains k)
-    if keep.isEmpty then none else
+    if keep.isEmpty then some none else
     let removed := axes.map (fun k => (a.legAt k).getCharge 0)
-    some { legs := keep.filterMap (fun k => a.legs[k]?),
-           qtotal := makeValid a.mods (removed.foldl (fun acc c => cadd acc (cneg c)) a.qtotal),
-           qdata := a.qdata.map (fun r => selectCols keep r 0),
-           sorted := a.sorted }
+    some (some { legs := keep.filterMap (fun k => a.legs[k]?),
+                 qtotal := makeValid a.mods (removed.foldl (fun acc c => cadd acc (cneg c)) a.qtotal),
+                 qdata := a.qdata.map (fun r => selectCols keep r 0),
+                 sorted := a.sorted })
 
 /-! ## sorting of rows, purging, scaling -/
 
@@ -312,7 +312,7 @@ def reinsert (dst : ArrS) (rows : List (List Nat)) (nz : List Bool) : ArrS :=
 /-- `add_leg(leg, i, axis)` -/
 def addLeg (a : ArrS) (leg : LegS) (i : Int) (axis : Int) (nz : List Bool) : Option ArrS :=
   let ax : Int := if axis < 0 then axis + a.rank else axis
-  if ax < 0 || ax ≥ a.rank then none else
+  if ax < 0 || ax > a.rank then none else
   let pos := ax.toNat
   match leg.leg.getQindex i with
   | none => none
